@@ -620,11 +620,15 @@ func (p *Parser) parseSlots() []*ast.SlotStmt {
 			return nil
 		}
 
-		p.nextToken() // skip "@end"
-
-		for p.curTokenIs(token.HTML) {
-			p.nextToken() // skip whitespace
+		if p.peekTokenIs(token.HTML) && isWhitespace(p.peekToken.Literal) {
+			p.nextToken() // skip whitespace between slots
 		}
+
+		if !p.peekTokenIs(token.SLOT) {
+			break
+		}
+
+		p.nextToken() // move to the next "@slot"
 	}
 
 	return slots
